@@ -14,6 +14,11 @@ open Common Common.Proto Unsized Unsized.Text Unsized.Machine Unsized.PtrT Unsiz
 def baseA : Nat := 1048576
 def baseB : Nat := 1073741824
 
+/-- `layout=account` swap cases: account `B` is serialized DIRECTLY BEHIND account `A` in the runtime's
+input — after A's data and its 10240 bytes of headroom come the padding to 8, the rent epoch (8) and B's
+88-byte header. -/
+def baseBBehind (origA : Nat) : Nat := baseA + (origA + maxIncrease + 7) / 8 * 8 + 8 + 88
+
 def mkBuf (s : Shape) (v : Val) (refuse : List Nat) (base : Nat) : Option PBuf :=
   let bytes := encode s v
   match getPtr s bytes base with
@@ -48,6 +53,23 @@ def parseLayoutOnly : List Sx → Bool
   | [.atom a] => a = "layout=start" || a = "layout=end" || a = "layout=account"
   | _ => false
 
+def isAccount : List Sx → Bool
+  | [.atom a] => a = "layout=account"
+  | _ => false
+
+/-- ` rng=<lo>:<hi>`: the top wrapper's valid range as offsets from the data start (printed after a
+successful `reborrow`). -/
+def showRng (X : PBuf) : String :=
+  s!" rng={(X.rng.lo : Int) - (X.base : Int)}:{(X.rng.hi : Int) - (X.base : Int)}"
+
+def isReborrow : RawCmd → Bool
+  | .reborrow => true
+  | _ => false
+
+def isOk : Except Err Ret → Bool
+  | .ok _ => true
+  | .error _ => false
+
 def header (line : String) : DSt :=
   match parseSx (lex line) with
   | some (.atom "case" :: _ :: .atom "swap" :: shapeSx :: va :: vb :: rest) =>
@@ -58,7 +80,8 @@ def header (line : String) : DSt :=
         match toVal s va, toVal s vb with
         | some a, some b =>
           if WF s a && WF s b then
-            match mkBuf s a [] baseA, mkBuf s b [] baseB with
+            match mkBuf s a [] baseA,
+                mkBuf s b [] (if isAccount rest then baseBBehind (encode s a).length else baseB) with
             | some A, some B => .live s ⟨A, B⟩ true 0 false
             | _, _ => .invalid
           else .invalid
@@ -150,7 +173,8 @@ def plainLine (s : Shape) (w : World) (deadPlain : Bool) (line : String) : World
     | (_, .bad) => (w, false, "bad-op")
     | (w', .panic) => (w', true, "panic")
     | (w', .panicDrop) => (w', true, "panic")
-    | (w', .res r evs) => (w', isInitFail r, fullAnswer w'.a r evs)
+    | (w', .res r evs) =>
+      (w', isInitFail r, fullAnswer w'.a r evs ++ (if isReborrow raw && isOk r then showRng w'.a else ""))
 
 /-- `A …` / `B …` of a swap case. -/
 def bufLine (s : Shape) (w : World) (x : Which) (swaps : Nat) (rest : String) : World × String :=
@@ -171,7 +195,7 @@ def bufLine (s : Shape) (w : World) (x : Which) (swaps : Nat) (rest : String) : 
         | (w', .res r evs) =>
           let X' := w'.get x
           let w'' := if isInitFail r then w'.set x { X' with dead := true } else w'
-          (w'', fullAnswer X' r evs)
+          (w'', fullAnswer X' r evs ++ (if isReborrow raw && isOk r then showRng X' else ""))
   else
     if X.finished then (w, "dead")
     else if rest = "end" then
